@@ -17,6 +17,7 @@ import (
 
 	"verifharness/fake"
 	"verifharness/ref"
+	twinhb "verifharness/twin/hb"
 	"verifharness/vh"
 )
 
@@ -57,6 +58,12 @@ func c16heartbeats(rep *vh.Report, seed uint64, idx int, P time.Duration) (spaci
 		outV = gomavlib.V1
 	}
 	d := &dialect.Dialect{Version: ver, Messages: []message.Message{&common.MessageHeartbeat{}, &common.MessageRequestDataStream{}, &MessageVfUid{}, &MessageVfLow{}}}
+	if idx%2 == 1 {
+		// the standard heartbeat as a hand-written struct whose Go fields are declared in another order (wire order): same
+		// message for every peer; used after (and next to) nodes on the generated struct in this process
+		d.Messages[0] = &twinhb.MessageHeartbeat{}
+		rep.Count("heartbeat_scenarios_with_reordered_go_struct", 1)
+	}
 	var trs []*fake.Transport
 	var eps []gomavlib.EndpointConf
 	for i := 0; i < k; i++ {
